@@ -10,7 +10,7 @@ import (
 func clientGo(c *chk.Ctx) func(goClass) bool {
 	return func(gc goClass) bool {
 		r := ir.RecvNamed(gc.g.Parent())
-		return inPkg(c, gc.g.Parent(), c.M.Pkg) && (r == c.M.Client || (r == nil && ir.Root(gc.g.Parent()).Name() == "NewClient") || startsClient(c, gc.g.Parent()))
+		return inPkg(c, gc.g.Parent(), c.M.Pkg) && (r == c.M.Client || (r != c.M.Server && sideOf(c, gc.g.Parent())["client"] && !sideOf(c, gc.g.Parent())["server"]) || (r == nil && ir.Root(gc.g.Parent()).Name() == "NewClient") || startsClient(c, gc.g.Parent()))
 	}
 }
 
